@@ -26,6 +26,13 @@
 //! family of delivery orders, `Mode::Family`) and `bigN_*` (N = 16..8192, structured plaintexts, long chains at N >= 1024)
 //! drive every dimension the protocol code loops over across the 8 / 16 / 64 / 1024 / 4096 boundaries with the same replay
 //! machinery and the same oracles; their violation keys carry the prefix `primes:` / `parties:` / `bigN:`.
+//!
+//! History / value sections (`value_history_sections`, engine E1): `histories_n2/n3` run every sequence of three protocol steps
+//! with DATA FLOW on the same participants (the current ciphertext goes through key switches whose new shares the parties ADOPT
+//! with `update_secret_key`, through shares round trips and re-encryptions under the collective key) and judge every run under
+//! the keys current at that point; `extreme_shares` puts residue vectors at the value boundaries of a modular sum (q-1-id, q-1,
+//! 0/q-1, (q+-1)/2; 60-bit primes; 2..65 parties) into the key shares and — by solving the shares from two probe runs — into
+//! every polynomial of every round message, and compares every aggregate with the u128 sum of what went over the wire.
 use crate::engine::*;
 use crate::he::*;
 use heathcliff::multiparty::participant::*;
@@ -60,6 +67,8 @@ pub fn describe(rep: &Report) {
     rep.assume("production-size sections (keys prefixed primes: / parties: / bigN:): same machinery, same oracles. primes_n2/n3 + primes_chained_n2 drive the number of RNS primes (2..19 in total, i.e. 1..18 at the first level and 1..18 decomposition components of the relinearisation rounds) at N = 4, 8; parties_family / parties_boundary drive the party count (8, 9, 16, 17, 33, 65) along an explicitly stated family of delivery orders (identity, reverse, rotations, adjacent transpositions — never 'all orders'; delivered sets are kept as unbounded bit vectors there, the 64-bit masks are used by the lattices only); bigN_n2/n3 + bigN_primes_n2 drive the degree (16..1024, thorough ..8192) with structured plaintexts (ramp, all-maximal, unit slots at the 2^j-1, 2^j, 2^j+1 positions) and long chains (9..18 primes) at N >= 1024. The context of such a configuration is built once per explicit parameter set and shared between fixtures (immutable, a function of the parameters only)");
     rep.assume("CKKS scale: 2^min(30, ..) below N = 128 as before, 2^min(48, ..) from N = 128 on (primes >= 54 bits there), because the a-priori worst-case tolerance grows with N^2 for the relinearised product; the largest |error|/tolerance ratio is reported per section");
     rep.assume("chained sections: every ordered pair (thorough: and triple) of protocols is run to completion on the SAME Participant objects, so the common random tape and all private state are carried from one protocol into the next; only the last protocol's outputs are judged (same oracles), its expectation is the canonical-order run of the same chain; each step's input is a fresh encryption (no data flow between steps), update_secret_key is never called, hence the summed key is constant along a chain");
+    rep.assume("histories_n2 / histories_n3 (engine E1, keys prefixed histories:): HISTORY-gated behaviour. The chained sections run protocols side by side (fresh input per step, nobody ever adopts a key-switch result); here the participants, their key shares and ONE current ciphertext are carried through every sequence of three steps: decrypt leaves the ciphertext; key_switch replaces it by its output and every party adopts its new share with update_secret_key (the only public way a share changes), so every later oracle is taken under the NEW sum; cipher_to_shares + shares_to_cipher replaces it by party 0's re-encryption of the shares and the expected plaintext by the sum of the shares; the collective public key is used to encrypt the next plaintext, which becomes the current ciphertext; public_key_switch always targets the same outside key. Every protocol run is judged by the semantic oracles of the lattice sections with the keys current at that point; CKKS tolerances add the a-priori noise of the hops (n error samples per key switch; n error samples + n encodings for a shares round trip). Each case loops over its delivery-order variants on fresh participants");
+    rep.assume("extreme_shares (engine E1, keys prefixed extreme:): VALUE-gated behaviour. Every sum of n residues in src/multiparty goes through PolynomialRevelationProtocol::finish (branch over the coefficient moduli; the plain-modulus branch needs a polynomial with the all-zero parms id, which no protocol of Participant creates from a valid secret key — not driven), reached from every protocol's finish/step2. Honest ternary shares and uniform masks never put n near-maximal residues into one position, so the residues are forced there: update_secret_key accepts any residue vector, and each polynomial of a round message is an affine function A*s_i + B_i (position-wise in the NTT domain) of the sender's share s_i, with A, B_i measured by two probe runs of the same deterministic (H1-reseeded) configuration; the solved shares put the pattern into that polynomial of EVERY party's message (relinearisation round 2: all parties but the last, the sum of the shares being held fixed; cipher_to_shares: all senders, party 0's own term never leaves it). The harness uses the library's NTT only to build these inputs; the oracle (sum of the exchanged polynomials in u128, one reduction) never does. With the three largest 60-bit primes the residues of 16 parties cannot reach 2^64, those of 17 maximal ones do");
     rep.assume("rounds are synchronous barriers: step2() is called by all parties after every round-1 message has been delivered (the API carries no round tag; delivering a round-2 message to a party still in round 1 is caller misuse and not explored)");
     rep.assume("each message is delivered at most once and unmodified (duplication, loss and corruption are not part of this property)");
     rep.assume("cipher_to_shares: only party 0 receives and only parties != 0 send (asserted by the code); non-aggregating parties have no inbox, their finish() is not subject to the refusal rule");
@@ -304,6 +313,9 @@ struct Fixture {
     ckks_ratio: std::cell::Cell<f64>,
     /// smallest invariant noise budget (bits) of a judged BFV/BGV output ciphertext
     min_budget: std::cell::Cell<i64>,
+    /// coefficient noise the input ciphertext carries on top of a fresh public-key encryption (0 everywhere except in the
+    /// `histories` section, where a ciphertext flows through key switches / a shares round trip before it is judged)
+    extra_noise: std::cell::Cell<f64>,
 }
 
 fn sum_keys(parts: &[Vec<u64>], moduli: &[u64], n: usize) -> Vec<u64> {
@@ -443,6 +455,7 @@ impl Fixture {
             shares_c: vec![],
             ckks_ratio: std::cell::Cell::new(0.0),
             min_budget: std::cell::Cell::new(i64::MAX),
+            extra_noise: std::cell::Cell::new(0.0),
         };
         // the parties' secret keys and their sum
         let mut proto_sk = None;
@@ -983,7 +996,7 @@ impl Fixture {
     fn fresh_bound(&self, level: usize) -> f64 {
         // public-key encryption at the key level, division by the special prime, `level` further switches
         let round = (1.0 + (self.ctx.first_context_data().unwrap().parms().poly_modulus_degree() * self.n) as f64) / 2.0;
-        round * (1.0 + level as f64) + 2.0
+        round * (1.0 + level as f64) + 2.0 + self.extra_noise.get()
     }
     fn tol(&self, coeff_bound: f64, encodings: f64, scale: f64) -> f64 {
         let deg = self.ctx.first_context_data().unwrap().parms().poly_modulus_degree() as f64;
@@ -2424,6 +2437,1080 @@ fn size_sections(cfg: &RunCfg) -> Vec<Box<dyn AnySection>> {
     v
 }
 
+// =============================================================================================
+// HISTORY and VALUE sections (`histories`, `extreme_shares`): engine E1 on top of the same protocol objects
+// =============================================================================================
+//
+// Both sections run complete protocol rounds on live `Participant` objects (no replay of partial histories: incomplete
+// inboxes are the business of the lattice sections) and judge what comes out after EVERY protocol run.
+
+/// what one complete run of one protocol on the given participants produced
+struct StepRun {
+    outs: Vec<Out>,
+    /// wires[round][sender] = the bytes the sender serialised in that round (None: not a sender of this protocol)
+    wires: Vec<Vec<Option<Vec<u8>>>>,
+}
+
+/// One protocol, all parties, run to completion on `parties`: create (H1 reseeded per party), per round send / deliver every
+/// message in canonical order (reversed where `rev[round]`) / step2, finish at every party.
+fn run_step(cfg: &Cfg, fx: &Fixture, proto: Proto, parties: &mut [Participant], step: usize, rev: &[bool]) -> Result<StepRun, Fail> {
+    let n = parties.len();
+    let mut objs: Vec<Obj> = Vec::with_capacity(n);
+    for (p, party) in parties.iter_mut().enumerate() {
+        fx.reseed("hproto", step, p);
+        match guard(|| create(cfg, proto, fx, p, party)) {
+            Ok(o) => objs.push(o),
+            Err(e) => {
+                let what = if e.contains("[Invalid argument]") { format!("create:refused:{}", panic_class(&e)) } else { format!("create:{}:panic:{}", proto.name(), panic_class(&e)) };
+                return Err(mkfail(cfg, &what, format!("party {p} can start {} on a valid input", proto.name()), e));
+            }
+        }
+    }
+    let edges = proto.edges(n);
+    let senders: BTreeSet<usize> = edges.iter().map(|e| e.0).collect();
+    let mut wires = vec![];
+    for lr in 0..proto.rounds() {
+        let mut msgs: Vec<Option<Vec<u8>>> = vec![None; n];
+        for &s in &senders {
+            let mut v = vec![];
+            match guard(|| objs[s].send(&mut v)) {
+                Ok(Ok(())) => {}
+                Ok(Err(e)) => return Err(mkfail(cfg, "send:io-error", format!("party {s} can serialise its round-{lr} message"), e.to_string())),
+                Err(e) => return Err(mkfail(cfg, &format!("send:panic:{}", panic_class(&e)), format!("party {s} can serialise its round-{lr} message"), e)),
+            }
+            msgs[s] = Some(v);
+        }
+        let mut ord: Vec<usize> = (0..edges.len()).collect();
+        if rev.get(lr).copied().unwrap_or(false) {
+            ord.reverse();
+        }
+        for e in ord {
+            let (s, rcv) = edges[e];
+            let bytes = msgs[s].as_ref().unwrap();
+            match guard(|| objs[rcv].receive(s, bytes)) {
+                Ok(Ok(_)) => {}
+                Ok(Err(er)) => return Err(mkfail(cfg, "receive:io-error", format!("party {rcv} accepts the round-{lr} message of party {s}"), er.to_string())),
+                Err(er) => return Err(mkfail(cfg, &format!("receive:panic:{}", panic_class(&er)), format!("party {rcv} accepts the round-{lr} message of party {s}"), er)),
+            }
+        }
+        wires.push(msgs);
+        if lr + 1 < proto.rounds() {
+            for p in 0..n {
+                fx.reseed("hadvance", step * 4 + lr, p);
+                if let Err(e) = guard(|| objs[p].advance()) {
+                    return Err(mkfail(cfg, &format!("step2:complete-inbox-refused:{}", panic_class(&e)), format!("party {p} with a complete round-{lr} inbox can start round {}", lr + 1), e));
+                }
+            }
+        }
+    }
+    let mut outs = vec![];
+    for (p, o) in objs.into_iter().enumerate() {
+        match guard(|| o.finish(fx)) {
+            Ok(out) => outs.push(out),
+            Err(e) => return Err(mkfail(cfg, &format!("finish:complete-inbox-refused:{}", panic_class(&e)), format!("party {p} has received every message addressed to it and completes {}", proto.name()), e)),
+        }
+    }
+    Ok(StepRun { outs, wires })
+}
+
+// ---------------------------------------------------------------------------------------------
+// histories
+// ---------------------------------------------------------------------------------------------
+
+/// one step of a history; the participants, their key shares and the current ciphertext are carried from step to step
+#[derive(Serialize, Deserialize, Clone, Copy, Debug, PartialEq, Eq, Hash, PartialOrd, Ord)]
+pub enum HStep {
+    /// collective decryption of the current ciphertext (the ciphertext stays)
+    Decrypt,
+    /// collective key switch of the current ciphertext to fresh shares; every party then ADOPTS its new share with
+    /// update_secret_key, the output becomes the current ciphertext, the new sum the current collective key
+    KeySwitchAdopt,
+    /// collective public-key switch of the current ciphertext to an outside key (the ciphertext stays)
+    PubKeySwitch,
+    /// cipher_to_shares of the current ciphertext, then shares_to_cipher of exactly those shares; party 0's output becomes
+    /// the current ciphertext (BGV: cipher_to_shares only, the library refuses shares_to_cipher there)
+    SharesRoundTrip,
+    PublicKey,
+    RelinKeys,
+    RevealSk,
+}
+
+impl HStep {
+    pub fn all() -> [HStep; 7] {
+        [HStep::Decrypt, HStep::KeySwitchAdopt, HStep::PubKeySwitch, HStep::SharesRoundTrip, HStep::PublicKey, HStep::RelinKeys, HStep::RevealSk]
+    }
+    fn protos(self, scheme: Scheme) -> Vec<Proto> {
+        match self {
+            HStep::Decrypt => vec![Proto::Decrypt],
+            HStep::KeySwitchAdopt => vec![Proto::KeySwitch],
+            HStep::PubKeySwitch => vec![Proto::PubKeySwitch],
+            HStep::SharesRoundTrip => {
+                if scheme == Scheme::BGV {
+                    vec![Proto::CipherToShares]
+                } else {
+                    vec![Proto::CipherToShares, Proto::SharesToCipher]
+                }
+            }
+            HStep::PublicKey => vec![Proto::PublicKey],
+            HStep::RelinKeys => vec![Proto::RelinKeys],
+            HStep::RevealSk => vec![Proto::RevealSk],
+        }
+    }
+    /// rounds of message exchange of the step (over its protocols)
+    fn rounds(self, scheme: Scheme) -> usize {
+        self.protos(scheme).iter().map(|p| p.rounds()).sum()
+    }
+}
+
+#[derive(Serialize, Deserialize, Clone, Debug)]
+pub struct HistCase {
+    pub spec: ParamSpec,
+    pub parties: usize,
+    pub steps: Vec<HStep>,
+    /// delivery-order variants, each run from fresh participants: (every round of the earlier steps reversed,
+    /// bit r set = round r of the LAST step delivered in reverse order)
+    pub orders: Vec<(bool, u8)>,
+    pub msg: Vec<i64>,
+}
+
+fn hist_base_cfg(c: &HistCase) -> Option<Cfg> {
+    let mut seq: Vec<Proto> = c.steps.iter().flat_map(|s| s.protos(c.spec.scheme)).collect();
+    let proto = seq.pop()?;
+    Some(Cfg { proto, spec: c.spec.clone(), parties: c.parties, msg: c.msg.clone(), level: 0, shares: ShareMode::Sampler, err: Noise::Real, tern: Noise::Real, chain: seq })
+}
+
+/// where a history stands (for the violation key: the protocol being run, and whether a share has been adopted before it)
+struct HistPos {
+    proto: Proto,
+    adopted: bool,
+}
+
+/// one history from fresh participants; Ok(number of judged observations)
+fn hist_run(case: &HistCase, base: &Cfg, fx: &mut Fixture, rev_earlier: bool, last_mask: u8, pos: &mut HistPos) -> Result<u64, Fail> {
+    let n = case.parties;
+    let scheme = case.spec.scheme;
+    let deg = case.spec.n;
+    let nf = n as f64;
+    let mut parties: Vec<Participant> = Vec::with_capacity(n);
+    for p in 0..n {
+        match guard(|| fx.new_party(p)) {
+            Ok(pt) => parties.push(pt),
+            Err(e) => return Err(mkfail(base, &format!("participant-new:panic:{}", panic_class(&e)), "Participant::new succeeds", e)),
+        }
+        if parties[p].secret_key().data() != &fx.sk_parts[p] {
+            return Err(mkfail(base, "harness:replay-not-deterministic", "a re-created participant has the secret key of the first creation", format!("party {p} differs")));
+        }
+    }
+    // the share every party is expected to hold right now
+    let mut shares_now: Vec<Vec<u64>> = fx.sk_parts.clone();
+    let mut judged = 0u64;
+    for (k, &st) in case.steps.iter().enumerate() {
+        let is_last = k + 1 == case.steps.len();
+        let mut round_idx = 0usize;
+        for (sub, &proto) in st.protos(scheme).iter().enumerate() {
+            let mut cfgk = base.clone();
+            cfgk.proto = proto;
+            cfgk.chain = vec![];
+            pos.proto = proto;
+            let rev: Vec<bool> = (0..proto.rounds()).map(|lr| if is_last { last_mask >> (round_idx + lr) & 1 == 1 } else { rev_earlier }).collect();
+            round_idx += proto.rounds();
+            if proto == Proto::KeySwitch {
+                // fresh target shares for THIS step
+                let mut parts = vec![];
+                fx.new_sks.clear();
+                for p in 0..n {
+                    fx.reseed("hnewsk", k, p);
+                    let sk = KeyGenerator::new(fx.ctx.clone()).secret_key().clone();
+                    parts.push(sk.data().clone());
+                    fx.new_sks.push(sk);
+                }
+                let mut s = fx.new_sks[0].clone();
+                s.data_mut().copy_from_slice(&sum_keys(&parts, &fx.key_moduli, deg));
+                fx.new_sk_sum = Some(s);
+            }
+            let run = run_step(&cfgk, fx, proto, &mut parties, k * 2 + sub, &rev)?;
+            judged += run.outs.len() as u64;
+            // no protocol run may change a party's key share
+            for p in 0..n {
+                if parties[p].secret_key().data() != &shares_now[p] {
+                    return Err(mkfail(&cfgk, "key-share-changed-by-a-protocol-run", format!("party {p} still holds the share it held before {}", proto.name()), "different residues"));
+                }
+            }
+            let sem = semantic(&cfgk, fx, &run.outs);
+            judged += sem.steps;
+            if let Some(f) = sem.fails.into_iter().next() {
+                return Err(f);
+            }
+            // carry the state into the next step
+            match proto {
+                Proto::KeySwitch => {
+                    let Out::Ct(ct) = &run.outs[0] else { unreachable!() };
+                    fx.cipher = Some(ct.clone());
+                    for p in 0..n {
+                        let sk = fx.new_sks[p].clone();
+                        if let Err(e) = guard(|| parties[p].update_secret_key(&sk)) {
+                            return Err(mkfail(&cfgk, &format!("update_secret_key:panic:{}", panic_class(&e)), format!("party {p} can adopt its new share"), e));
+                        }
+                        shares_now[p] = sk.data().clone();
+                        if parties[p].secret_key().data() != &shares_now[p] {
+                            return Err(mkfail(&cfgk, "update_secret_key:share-not-adopted", format!("party {p} holds the share it was given"), "different residues"));
+                        }
+                    }
+                    fx.sk_sum = fx.new_sk_sum.clone().unwrap();
+                    fx.reseed("hpk", k, 0);
+                    fx.pk_sum = KeyGenerator::from_sk(fx.ctx.clone(), fx.sk_sum.clone()).create_public_key(false);
+                    fx.extra_noise.set(fx.extra_noise.get() + nf * E_MAX);
+                    pos.adopted = true;
+                }
+                Proto::CipherToShares => {
+                    fx.shares_u.clear();
+                    fx.shares_c.clear();
+                    for o in &run.outs {
+                        match o {
+                            Out::ShU(v) => fx.shares_u.push(v.clone()),
+                            Out::ShC(v) => fx.shares_c.push(v.clone()),
+                            _ => unreachable!(),
+                        }
+                    }
+                }
+                Proto::SharesToCipher => {
+                    let Out::Ct(ct) = &run.outs[0] else { unreachable!() };
+                    let mut ct = ct.clone();
+                    if scheme == Scheme::CKKS {
+                        ct.set_scale(fx.scale);
+                        let mut sum = vec![C64::new(0.0, 0.0); fx.nslots];
+                        for v in &fx.shares_c {
+                            for k2 in 0..fx.nslots {
+                                sum[k2] += v[k2];
+                            }
+                        }
+                        fx.msg_c = sum;
+                    } else {
+                        let mut sum = vec![0u64; fx.nslots];
+                        for v in &fx.shares_u {
+                            for k2 in 0..fx.nslots {
+                                sum[k2] = (sum[k2] + v[k2] % fx.t) % fx.t;
+                            }
+                        }
+                        fx.msg_u = sum;
+                    }
+                    fx.cipher = Some(ct);
+                    // a fresh ciphertext: n error samples and n encodings instead of the public-key encryption noise
+                    fx.extra_noise.set(nf * E_MAX + nf / 2.0);
+                }
+                Proto::PublicKey => {
+                    // the collective key goes into the data flow: the NEXT plaintext (slots rotated by one) is encrypted under it
+                    // and becomes the current ciphertext (a new second component, a new plaintext)
+                    let Out::Pk(pk) = &run.outs[0] else { unreachable!() };
+                    fx.msg_u.rotate_left(1);
+                    fx.msg_c.rotate_left(1);
+                    fx.reseed("hreenc", k, 0);
+                    let plain = fx.plain_of(&cfgk, &fx.msg_u, &fx.msg_c);
+                    let enc = Encryptor::new(fx.ctx.clone()).set_public_key(pk.clone());
+                    match guard(|| enc.encrypt_new(&plain)) {
+                        Ok(ct) => fx.cipher = Some(ct),
+                        Err(e) => return Err(mkfail(&cfgk, &format!("semantic:collective-public-key-unusable:{}", panic_class(&e)), "Encryptor accepts the collective key", e)),
+                    }
+                    fx.extra_noise.set(0.0);
+                }
+                _ => {}
+            }
+        }
+    }
+    Ok(judged)
+}
+
+fn check_history(case: &HistCase, seed: u64) -> CaseOut {
+    let Some(base) = hist_base_cfg(case) else { return CaseOut::skip("empty history") };
+    let mut fx = match guard(|| Fixture::build(&base, seed)) {
+        Ok(Ok(f)) => f,
+        Ok(Err(e)) => return CaseOut::skip(&format!("fixture: {e}")),
+        Err(e) => return CaseOut::fail(format!("histories:{}:fixture:panic:{}", base.shape(), panic_class(&e)), "keys and input ciphertext of the configuration can be produced", e),
+    };
+    let init = (fx.cipher.clone(), fx.sk_sum.clone(), fx.pk_sum.clone(), fx.msg_u.clone(), fx.msg_c.clone());
+    let mut steps = 0u64;
+    for &(rev_earlier, mask) in &case.orders {
+        fx.cipher = init.0.clone();
+        fx.sk_sum = init.1.clone();
+        fx.pk_sum = init.2.clone();
+        fx.msg_u = init.3.clone();
+        fx.msg_c = init.4.clone();
+        fx.extra_noise.set(0.0);
+        let mut pos = HistPos { proto: base.proto, adopted: false };
+        match guard(|| hist_run(case, &base, &mut fx, rev_earlier, mask, &mut pos)) {
+            Ok(Ok(s)) => steps += s,
+            Ok(Err(f)) => {
+                // key: section : protocol that failed : scheme : had a share been adopted before : what went wrong (the history
+                // itself is in `observed` and in the case — one defect, one key per protocol it breaks)
+                let prefix = format!("{}:{:?}:", pos.proto.name(), case.spec.scheme);
+                let what = f.key.strip_prefix(&prefix).unwrap_or(&f.key).to_string();
+                let ord = format!(" [history {:?}, earlier steps {}, last step reversed rounds mask {mask}]", case.steps, if rev_earlier { "reverse order" } else { "identity order" });
+                return CaseOut::fail(format!("histories:{prefix}{}:{what}", if pos.adopted { "after-adoption" } else { "no-adoption" }), f.expected, format!("{}{ord}", f.observed));
+            }
+            Err(p) => return CaseOut::fail(format!("histories:{}:unexpected-panic:{}", base.shape(), panic_class(&p)), "no panic outside the guarded subject calls", p),
+        }
+    }
+    CaseOut::pass(true, h64(&(&case.steps, case.spec.scheme, case.parties, case.orders.len())), steps)
+}
+
+/// every sequence of `len` steps over the 7-letter alphabet (repetition allowed) x scheme, for `n` parties;
+/// `all_last_orders`: every combination of (identity | reverse) over the rounds of the last step with the earlier steps in
+/// identity order (n = 2: these are ALL delivery orders of the last step); otherwise whole history identity / whole history reversed
+/// (`mixed`: also only-the-earlier-steps reversed and only-the-last-step reversed)
+fn history_cases(n: usize, len: usize, all_last_orders: bool, mixed: bool, keep: &dyn Fn(&[HStep]) -> bool) -> Vec<HistCase> {
+    let al = HStep::all();
+    let mut v = vec![];
+    for scheme in Scheme::all() {
+        let spec = param_sets(scheme).remove(1);
+        let msg = msgs_for(scheme, 17, 8).remove(2);
+        for idx in 0..al.len().pow(len as u32) {
+            let mut steps = vec![];
+            let mut x = idx;
+            for _ in 0..len {
+                steps.push(al[x % al.len()]);
+                x /= al.len();
+            }
+            steps.reverse();
+            if !keep(&steps) {
+                continue;
+            }
+            let lr = steps.last().unwrap().rounds(scheme);
+            let full: u8 = ((1u16 << lr) - 1) as u8;
+            // rounds of the last step with a single message have one delivery order only
+            let mut single: u8 = 0;
+            let mut ri = 0;
+            for p in steps.last().unwrap().protos(scheme) {
+                for _ in 0..p.rounds() {
+                    if p.edges(n).len() <= 1 {
+                        single |= 1 << ri;
+                    }
+                    ri += 1;
+                }
+            }
+            let orders: Vec<(bool, u8)> = if all_last_orders {
+                (0..=full).filter(|m| m & single == 0).map(|m| (false, m)).collect()
+            } else if mixed {
+                vec![(false, 0), (true, full), (true, 0), (false, full)]
+            } else {
+                vec![(false, 0), (true, full)]
+            };
+            v.push(HistCase { spec: spec.clone(), parties: n, steps, orders, msg: msg.clone() });
+        }
+    }
+    v
+}
+
+// ---------------------------------------------------------------------------------------------
+// extreme_shares
+// ---------------------------------------------------------------------------------------------
+
+/// residue vectors at the value boundaries of a modular sum (party `id`, modulus q, position k inside the component)
+#[derive(Serialize, Deserialize, Clone, Copy, Debug, PartialEq, Eq, Hash)]
+pub enum XPat {
+    /// q - 1 - id
+    MaxMinusId,
+    /// q - 1
+    Max,
+    /// 0 at even positions, q - 1 at odd positions
+    AltZeroMax,
+    /// (q + 1) / 2: two of them exceed q by one
+    HalfUp,
+    /// (q - 1) / 2: two of them stay one below q
+    HalfDown,
+    /// (q + 1) / 2 at the parties with an even id, (q - 1) / 2 at the odd ones: every pair adds up to EXACTLY q
+    HalfMixed,
+    /// q - 1 - id in the FIRST RNS component only, id + 1 in the others (when every component of a position goes wrong by the
+    /// same integer — 2^64 for a wrapped word — the error is a small integer and BFV's scale-and-round absorbs it; a
+    /// single wrong component is garbage after CRT composition)
+    MaxFirstComponent,
+}
+
+impl XPat {
+    pub fn all() -> [XPat; 7] {
+        [XPat::MaxMinusId, XPat::Max, XPat::AltZeroMax, XPat::HalfUp, XPat::HalfDown, XPat::HalfMixed, XPat::MaxFirstComponent]
+    }
+    /// the same residues at every party (the only patterns a quantity common to all parties can carry)
+    fn party_independent(self) -> bool {
+        !matches!(self, XPat::MaxMinusId | XPat::HalfMixed | XPat::MaxFirstComponent)
+    }
+    /// residue of party `id` modulo q = the j-th prime, at position k of that component
+    fn val(self, id: usize, q: u64, j: usize, k: usize) -> u64 {
+        match self {
+            XPat::MaxMinusId => q - 1 - (id as u64 % (q - 1)),
+            XPat::Max => q - 1,
+            XPat::AltZeroMax => {
+                if k % 2 == 0 {
+                    0
+                } else {
+                    q - 1
+                }
+            }
+            XPat::HalfUp => (q + 1) / 2,
+            XPat::HalfDown => (q - 1) / 2,
+            XPat::HalfMixed => (q + 1 - 2 * (id as u64 % 2)) / 2,
+            XPat::MaxFirstComponent => {
+                if j == 0 {
+                    q - 1 - (id as u64 % (q - 1))
+                } else {
+                    (id as u64 + 1) % q
+                }
+            }
+        }
+    }
+}
+
+#[derive(Serialize, Deserialize, Clone, Debug)]
+pub struct XCase {
+    pub spec: ParamSpec,
+    pub parties: usize,
+    pub proto: Proto,
+    pub pattern: XPat,
+    /// None: the parties' KEY SHARES are the pattern. Some((round, i)): the key shares are SOLVED (the i-th polynomial of a
+    /// party's round message is an affine function of its share, measured with two probe runs) so that this polynomial of
+    /// every party's message is the pattern; round 1 (relinearisation) keeps the sum of the shares fixed, the last party absorbs
+    pub target: Option<(usize, usize)>,
+    /// public_key_switch, second message polynomial (u_i * pk'_1 + e_i, independent of the key shares): ternary and error
+    /// scripts all-maximal (every party draws the same u and e) and pk'_1 solved so that every party sends the pattern
+    #[serde(default)]
+    pub craft_pk: bool,
+}
+
+fn parse_polys(ctx: &HeContext, bytes: &[u8]) -> Result<Vec<Vec<u64>>, String> {
+    let mut b = bytes;
+    let mut v = vec![];
+    while !b.is_empty() {
+        match guard(|| PolynomialSerializer::deserialize_polynomial(ctx, &mut b)) {
+            Ok(Ok(p)) => v.push(p),
+            Ok(Err(e)) => return Err(format!("io error: {e}")),
+            Err(e) => return Err(e),
+        }
+    }
+    Ok(v)
+}
+
+fn add_mod(a: u64, b: u64, q: u64) -> u64 {
+    ((a as u128 + b as u128) % q as u128) as u64
+}
+fn sub_mod(a: u64, b: u64, q: u64) -> u64 {
+    ((a as u128 + q as u128 - (b % q) as u128) % q as u128) as u64
+}
+fn mulm(a: u64, b: u64, q: u64) -> u64 {
+    ((a as u128 * b as u128) % q as u128) as u64
+}
+
+/// component-wise sum of polynomials over the first len/deg moduli, every partial sum in u128
+fn sum_polys<'x>(polys: impl Iterator<Item = &'x Vec<u64>>, moduli: &[u64], deg: usize) -> Option<Vec<u64>> {
+    let mut acc: Option<Vec<u128>> = None;
+    for p in polys {
+        match &mut acc {
+            None => acc = Some(p.iter().map(|&x| x as u128).collect()),
+            Some(a) => {
+                if a.len() != p.len() {
+                    return None;
+                }
+                for (x, y) in a.iter_mut().zip(p) {
+                    *x += *y as u128;
+                }
+            }
+        }
+    }
+    acc.map(|a| a.iter().enumerate().map(|(i, &x)| (x % moduli[i / deg] as u128) as u64).collect())
+}
+
+fn poly_add(a: &[u64], b: &[u64], moduli: &[u64], deg: usize) -> Vec<u64> {
+    a.iter().zip(b).enumerate().map(|(i, (&x, &y))| add_mod(x, y, moduli[i / deg])).collect()
+}
+
+struct XWorld {
+    /// a secret key object of the context (parms id, size); its residues are overwritten
+    template: SecretKey,
+}
+
+/// fresh participants holding exactly `keys`, one complete run of the protocol
+fn xrun(cfg: &Cfg, fx: &Fixture, w: &XWorld, keys: &[Vec<u64>], rev: bool) -> Result<StepRun, Fail> {
+    let n = cfg.parties;
+    let mut parties = Vec::with_capacity(n);
+    for p in 0..n {
+        let mut sk = w.template.clone();
+        sk.data_mut().copy_from_slice(&keys[p]);
+        match guard(|| {
+            let mut pt = fx.new_party(p);
+            pt.update_secret_key(&sk);
+            pt
+        }) {
+            Ok(pt) => parties.push(pt),
+            Err(e) => return Err(mkfail(cfg, &format!("participant-new:panic:{}", panic_class(&e)), "Participant::new and update_secret_key succeed", e)),
+        }
+        if parties[p].secret_key().data() != &keys[p] {
+            return Err(mkfail(cfg, "update_secret_key:share-not-adopted", format!("party {p} holds the share it was given"), "different residues"));
+        }
+    }
+    run_step(cfg, fx, cfg.proto, &mut parties, 0, &vec![rev; cfg.proto.rounds()])
+}
+
+/// the ciphertext-form protocols of BFV exchange coefficient-form polynomials; everything else is in NTT form
+fn coeff_domain(cfg: &Cfg) -> bool {
+    cfg.spec.scheme == Scheme::BFV && (cfg.proto.has_cipher_input() || cfg.proto == Proto::SharesToCipher)
+}
+
+fn to_ntt(fx: &Fixture, v: &mut [u64], deg: usize) {
+    let cd = fx.ctx.key_context_data().unwrap();
+    let l = v.len() / deg;
+    heathcliff::verif_hooks::polysmallmod::ntt_p(v, deg, &cd.small_ntt_tables()[..l]);
+}
+fn from_ntt(fx: &Fixture, v: &mut [u64], deg: usize) {
+    let cd = fx.ctx.key_context_data().unwrap();
+    let l = v.len() / deg;
+    heathcliff::verif_hooks::polysmallmod::intt_p(v, deg, &cd.small_ntt_tables()[..l]);
+}
+
+fn wire_poly(fx: &Fixture, run: &StepRun, r: usize, sender: usize, i: usize) -> Option<Vec<u64>> {
+    let bytes = run.wires.get(r)?.get(sender)?.as_ref()?;
+    parse_polys(&fx.ctx, bytes).ok()?.into_iter().nth(i)
+}
+
+/// a symmetric encryption of the configuration's plaintext under the key `s` whose second component is EXACTLY `c1`
+/// (the library's own symmetric encryption (c0', a') with c0 = c0' + (a' - c1) * s, so that c0 + c1*s = c0' + a'*s)
+fn craft_cipher(cfg: &Cfg, fx: &Fixture, s: &SecretKey, c1: &[u64], deg: usize) -> Result<Ciphertext, String> {
+    fx.reseed("xcraft", 0, 0);
+    let plain = fx.plain_of(cfg, &fx.msg_u, &fx.msg_c);
+    let enc = Encryptor::new(fx.ctx.clone()).set_secret_key(s.clone());
+    // (at N = 4 a polynomial is too short to hold a seed: the library then returns the expanded ciphertext at once)
+    let mut ct = guard(|| {
+        let c = enc.encrypt_symmetric_new(&plain);
+        if c.contains_seed() {
+            c.expand_seed(&fx.ctx)
+        } else {
+            c
+        }
+    })?;
+    if ct.poly(1).len() != c1.len() || ct.parms_id() != &fx.cipher_parms {
+        return Err("symmetric encryption is not at the level of the probe ciphertext".into());
+    }
+    let l = c1.len() / deg;
+    let q = &fx.key_moduli[..l];
+    let mut d: Vec<u64> = ct.poly(1).iter().zip(c1).enumerate().map(|(i, (&a, &c))| sub_mod(a, c, q[i / deg])).collect();
+    let ntt_form = ct.is_ntt_form();
+    if !ntt_form {
+        to_ntt(fx, &mut d, deg);
+    }
+    for i in 0..d.len() {
+        d[i] = mulm(d[i], s.data()[i], q[i / deg]);
+    }
+    if !ntt_form {
+        from_ntt(fx, &mut d, deg);
+    }
+    let c0 = poly_add(ct.poly(0), &d, q, deg);
+    ct.poly_mut(0).copy_from_slice(&c0);
+    ct.poly_mut(1).copy_from_slice(c1);
+    Ok(ct)
+}
+
+struct XStat {
+    judged: u64,
+    /// some position of some exchanged polynomial: the residues of all senders add up to >= 2^64
+    wrapped: bool,
+    /// the targeted polynomial of every controlled party is the pattern at every position / at some position
+    full_hit: bool,
+    some_hit: bool,
+}
+
+fn extreme_inner(case: &XCase, cfg: &Cfg, fx: &mut Fixture) -> Result<XStat, Fail> {
+    let n = case.parties;
+    let deg = case.spec.n;
+    let proto = case.proto;
+    let kq = fx.key_moduli.clone();
+    let klen = kq.len() * deg;
+    let template = guard(|| fx.new_party(0).secret_key().clone()).map_err(|e| mkfail(cfg, &format!("participant-new:panic:{}", panic_class(&e)), "Participant::new succeeds", e))?;
+    let w = XWorld { template };
+    let pat = case.pattern;
+    let pat_poly = |id: usize, len: usize| -> Vec<u64> { (0..len).map(|x| pat.val(id, kq[x / deg], x / deg, x % deg)).collect() };
+    let mut keys: Vec<Vec<u64>> = (0..n).map(|i| pat_poly(i, klen)).collect();
+    let cdom = coeff_domain(cfg);
+    let mut controlled: Vec<usize> = vec![];
+    // positions of the targeted polynomial that depend on the solved quantity at all (h0_j of the first relinearisation round
+    // depends on the share in component j only)
+    let mut solvable: Vec<bool> = vec![];
+    let harness = |what: &str, obs: String| mkfail(cfg, &format!("harness:{what}"), "the probe runs of the configuration complete", obs);
+
+    // At N = 4 a fresh encryption has an all-zero ternary u with probability 1/81 and then an all-zero second component:
+    // nothing a party sends would depend on its share. Deterministic retry until every NTT residue of c1 is invertible.
+    if proto.has_cipher_input() {
+        let enc = Encryptor::new(fx.ctx.clone()).set_public_key(fx.pk_sum.clone());
+        let plain = fx.plain_of(cfg, &fx.msg_u, &fx.msg_c);
+        for attempt in 0..16 {
+            let ct = fx.cipher.as_ref().unwrap();
+            let mut c1 = ct.poly(1).to_vec();
+            if !ct.is_ntt_form() {
+                to_ntt(fx, &mut c1, deg);
+            }
+            if c1.iter().all(|&x| x != 0) {
+                break;
+            }
+            fx.reseed("xct", attempt, 0);
+            fx.cipher = Some(guard(|| enc.encrypt_new(&plain)).map_err(|e| harness("cannot-encrypt-input", e))?);
+        }
+    }
+
+    if case.craft_pk {
+        // h1_i = u_i * pk'_1 + e_i with the same scripted u, e at every party: affine in the common pk'_1
+        let (pk0, tsk) = fx.target.clone().ok_or_else(|| harness("no-target-key", String::new()))?;
+        let (r, pi) = case.target.unwrap_or((0, 1));
+        let probe = |v: u64, fx: &mut Fixture| -> Result<Vec<u64>, Fail> {
+            let mut pk = pk0.clone();
+            pk.as_ciphertext_mut().poly_mut(1).iter_mut().for_each(|x| *x = v);
+            fx.target = Some((pk, tsk.clone()));
+            let run = xrun(cfg, fx, &w, &keys, false)?;
+            let mut m = wire_poly(fx, &run, r, 0, pi).ok_or_else(|| harness("probe-message-unreadable", format!("round {r} polynomial {pi}")))?;
+            if cdom {
+                to_ntt(fx, &mut m, deg);
+            }
+            Ok(m)
+        };
+        let m0 = probe(0, fx)?;
+        let m1 = probe(1, fx)?;
+        let mut tgt = pat_poly(0, m0.len());
+        if cdom {
+            to_ntt(fx, &mut tgt, deg);
+        }
+        let mut pk = pk0.clone();
+        {
+            let p1 = pk.as_ciphertext_mut().poly_mut(1);
+            p1.iter_mut().for_each(|x| *x = 0);
+            solvable = vec![false; m0.len()];
+            for x in 0..m0.len() {
+                let q = kq[x / deg];
+                let a = sub_mod(m1[x], m0[x], q);
+                if a != 0 {
+                    p1[x] = mulm(sub_mod(tgt[x], m0[x], q), crate::refmodel::bigu::inv_mod_u64(a, q).unwrap_or(0), q);
+                    solvable[x] = true;
+                }
+            }
+        }
+        fx.target = Some((pk, tsk));
+        controlled = (0..n).collect();
+    } else if let Some((r, pi)) = case.target {
+        let fixed_sum = r > 0;
+        let sstar: Vec<u64> = (0..klen).map(|x| 7 % kq[x / deg]).collect();
+        let probe_keys = |v: u64| -> Vec<Vec<u64>> {
+            let mut ks: Vec<Vec<u64>> = (0..n).map(|_| (0..klen).map(|x| v % kq[x / deg]).collect()).collect();
+            if fixed_sum {
+                ks[n - 1] = (0..klen).map(|x| sub_mod(sstar[x], mulm((n - 1) as u64, v, kq[x / deg]), kq[x / deg])).collect();
+            }
+            ks
+        };
+        let r0 = xrun(cfg, fx, &w, &probe_keys(0), false)?;
+        let r1 = xrun(cfg, fx, &w, &probe_keys(1), false)?;
+        for i in 0..n {
+            if fixed_sum && i == n - 1 {
+                continue;
+            }
+            let (Some(mut m0), Some(mut m1)) = (wire_poly(fx, &r0, r, i, pi), wire_poly(fx, &r1, r, i, pi)) else { continue };
+            if m0.len() != m1.len() || m0.len() > klen || m0.len() % deg != 0 {
+                return Err(harness("probe-message-shape", format!("party {i}: {} / {} words", m0.len(), m1.len())));
+            }
+            let mut tgt = pat_poly(i, m0.len());
+            if cdom {
+                to_ntt(fx, &mut m0, deg);
+                to_ntt(fx, &mut m1, deg);
+                to_ntt(fx, &mut tgt, deg);
+            }
+            if controlled.is_empty() {
+                solvable = vec![true; m0.len()];
+            }
+            for x in 0..m0.len() {
+                let q = kq[x / deg];
+                let a = sub_mod(m1[x], m0[x], q);
+                if a != 0 {
+                    keys[i][x] = mulm(sub_mod(tgt[x], m0[x], q), crate::refmodel::bigu::inv_mod_u64(a, q).unwrap_or(0), q);
+                } else if x < solvable.len() {
+                    solvable[x] = false;
+                }
+            }
+            controlled.push(i);
+        }
+        if fixed_sum {
+            let mut last = sstar.clone();
+            for i in 0..n - 1 {
+                for x in 0..klen {
+                    last[x] = sub_mod(last[x], keys[i][x], kq[x / deg]);
+                }
+            }
+            keys[n - 1] = last;
+        }
+    }
+
+    // the collective key and, for the ciphertext protocols, an input that really is an encryption under it
+    let ssum = sum_keys(&keys, &kq, deg);
+    let mut sk_sum = w.template.clone();
+    sk_sum.data_mut().copy_from_slice(&ssum);
+    fx.sk_sum = sk_sum.clone();
+    let input = if proto.has_cipher_input() {
+        let c1 = fx.cipher.as_ref().unwrap().poly(1).to_vec();
+        match craft_cipher(cfg, fx, &sk_sum, &c1, deg) {
+            Ok(ct) => {
+                fx.cipher = Some(ct.clone());
+                Some(ct)
+            }
+            Err(e) => return Err(harness("cannot-craft-input", e)),
+        }
+    } else {
+        None
+    };
+
+    let mut st = XStat { judged: 0, wrapped: false, full_hit: false, some_hit: false };
+    let dec_any = Decryptor::new(fx.ctx.clone(), sk_sum.clone());
+    for rev in [false, true] {
+        let run = xrun(cfg, fx, &w, &keys, rev)?;
+        let ord = if rev { "reverse order" } else { "identity order" };
+        // everything that went over the wire, per round and polynomial index: the senders' polynomials
+        let mut wire: Vec<Vec<Vec<Vec<u64>>>> = vec![]; // [round][poly index][sender]
+        for r in 0..run.wires.len() {
+            let mut per_poly: Vec<Vec<Vec<u64>>> = vec![];
+            for s in 0..n {
+                if let Some(bytes) = &run.wires[r][s] {
+                    let polys = parse_polys(&fx.ctx, bytes).map_err(|e| harness("message-unreadable", e))?;
+                    for (i, p) in polys.into_iter().enumerate() {
+                        if per_poly.len() <= i {
+                            per_poly.push(vec![]);
+                        }
+                        per_poly[i].push(p);
+                    }
+                }
+            }
+            wire.push(per_poly);
+        }
+        // did the values get where they were meant to be
+        for per_poly in &wire {
+            for senders in per_poly {
+                for x in 0..senders[0].len() {
+                    let s: u128 = senders.iter().map(|p| p.get(x).copied().unwrap_or(0) as u128).sum();
+                    if s >> 64 != 0 {
+                        st.wrapped = true;
+                    }
+                }
+            }
+        }
+        if let Some((r, pi)) = case.target {
+            let mut all = true;
+            let mut some = false;
+            let mut len = 0;
+            let got: Vec<Option<Vec<u64>>> = controlled.iter().map(|&i| wire_poly(fx, &run, r, i, pi)).collect();
+            if let Some(Some(g0)) = got.first() {
+                len = g0.len();
+            }
+            // (in the NTT domain a position the share does not reach stays what it is; in the coefficient domain every
+            // position must be solvable for any coefficient to hit)
+            let reach = |x: usize| if cdom { solvable.iter().all(|&b| b) } else { solvable.get(x).copied().unwrap_or(false) };
+            for x in 0..len {
+                if !reach(x) {
+                    continue;
+                }
+                let hit = controlled.iter().zip(&got).all(|(&i, g)| g.as_ref().map_or(false, |g| g[x] == pat.val(if case.craft_pk { 0 } else { i }, kq[x / deg], x / deg, x % deg)));
+                all &= hit;
+                some |= hit;
+            }
+            st.full_hit = some && all;
+            st.some_hit = some;
+        } else {
+            st.full_hit = true;
+            st.some_hit = true;
+        }
+        let sum_of = |r: usize, i: usize| -> Result<Vec<u64>, Fail> {
+            wire.get(r).and_then(|pp| pp.get(i)).and_then(|s| sum_polys(s.iter(), &kq, deg)).ok_or_else(|| harness("message-shape", format!("round {r} polynomial {i} missing or ragged")))
+        };
+        let wrong = |what: &str, p: usize, detail: String| -> Fail {
+            mkfail(cfg, &format!("aggregate-is-not-the-sum-of-the-shares:{what}"), format!("party {p}: {what} = sum over all parties of the exchanged polynomials, every residue reduced modulo its prime (u128 reference), {ord}"), detail)
+        };
+        let diff = |a: &[u64], b: &[u64]| -> String {
+            match a.iter().zip(b).position(|(x, y)| x != y) {
+                Some(i) => format!("word {i}: {} vs expected {} (modulus {})", a[i], b[i], kq[(i / deg).min(kq.len() - 1)]),
+                None => format!("lengths {} vs {}", a.len(), b.len()),
+            }
+        };
+        // all parties agree
+        if !matches!(proto, Proto::CipherToShares | Proto::SharesToCipher) {
+            for p in 1..n {
+                st.judged += 1;
+                if run.outs[p].fp() != run.outs[0].fp() {
+                    return Err(mkfail(cfg, "parties-disagree", format!("party {p} derives the same output as party 0 ({ord})"), "different bytes"));
+                }
+            }
+        }
+        match proto {
+            Proto::RevealSk => {
+                let exp = sum_of(0, 0)?;
+                for (p, o) in run.outs.iter().enumerate() {
+                    let Out::Sk(sk) = o else { unreachable!() };
+                    st.judged += 1;
+                    if sk.data()[..] != exp[..] {
+                        return Err(wrong("revealed key", p, diff(sk.data(), &exp)));
+                    }
+                }
+            }
+            Proto::PublicKey => {
+                let exp = sum_of(0, 0)?;
+                for (p, o) in run.outs.iter().enumerate() {
+                    let Out::Pk(pk) = o else { unreachable!() };
+                    st.judged += 1;
+                    if pk.as_ciphertext().poly(0)[..] != exp[..] {
+                        return Err(wrong("public key component 0", p, diff(pk.as_ciphertext().poly(0), &exp)));
+                    }
+                }
+                // ... and corresponds to the sum of the shares: pk0 + pk1 * s = -(sum of the parties' error polynomials)
+                let Out::Pk(pk) = &run.outs[0] else { unreachable!() };
+                let mut ph: Vec<u64> = (0..klen).map(|x| add_mod(pk.as_ciphertext().poly(0)[x], mulm(pk.as_ciphertext().poly(1)[x], ssum[x], kq[x / deg]), kq[x / deg])).collect();
+                from_ntt(fx, &mut ph, deg);
+                let bound = (n as u64) * 21 * if cfg.spec.scheme == Scheme::BGV { fx.t } else { 1 };
+                st.judged += 1;
+                if let Some(x) = (0..klen).find(|&x| ph[x] > bound && ph[x] < kq[x / deg] - bound) {
+                    return Err(mkfail(cfg, "collective-public-key-does-not-match-summed-secret-key", format!("pk0 + pk1*(sum of the shares) is the negated sum of n error polynomials (|coefficient| <= {bound}), {ord}"), format!("coefficient {x}: {} mod {}", ph[x], kq[x / deg])));
+                }
+            }
+            Proto::RelinKeys => {
+                // which polynomial of a round message feeds which key component is the protocol's private layout (today: round 1
+                // polynomial d+j -> component 1 of key j, round 2 polynomials j and d+j -> component 0): every component must be
+                // the u128 sum of ONE round-1 polynomial index resp. of TWO round-2 polynomial indices
+                let d = kq.len() - 1;
+                let r1: Vec<Vec<u64>> = (0..wire.first().map_or(0, |w| w.len())).map(|i| sum_of(0, i)).collect::<Result<_, _>>()?;
+                let r2: Vec<Vec<u64>> = (0..wire.get(1).map_or(0, |w| w.len())).map(|i| sum_of(1, i)).collect::<Result<_, _>>()?;
+                let mut pairs: Vec<Vec<u64>> = vec![];
+                for a in 0..r2.len() {
+                    for b in a + 1..r2.len() {
+                        pairs.push(poly_add(&r2[a], &r2[b], &kq, deg));
+                    }
+                }
+                for (p, o) in run.outs.iter().enumerate() {
+                    let Out::Rlk(rlk) = o else { unreachable!() };
+                    let ks = &rlk.as_kswitch_keys().data()[0];
+                    for j in 0..d.min(ks.len()) {
+                        st.judged += 2;
+                        let (c0, c1) = (ks[j].as_ciphertext().poly(0), ks[j].as_ciphertext().poly(1));
+                        if !r1.iter().any(|s| s[..] == c1[..]) {
+                            return Err(wrong("relinearisation key component 1 (round 1 aggregate)", p, r1.get(d + j).map_or(String::new(), |e| diff(c1, e))));
+                        }
+                        if !pairs.iter().any(|s| s[..] == c0[..]) {
+                            let e = if d + j < r2.len() { poly_add(&r2[j], &r2[d + j], &kq, deg) } else { vec![] };
+                            return Err(wrong("relinearisation key component 0 (round 2 aggregates)", p, diff(c0, &e)));
+                        }
+                    }
+                }
+            }
+            Proto::KeySwitch => {
+                let inp = input.as_ref().unwrap();
+                let c0 = poly_add(inp.poly(0), &sum_of(0, 0)?, &kq, deg);
+                for (p, o) in run.outs.iter().enumerate() {
+                    let Out::Ct(ct) = o else { unreachable!() };
+                    st.judged += 2;
+                    if ct.poly(0)[..] != c0[..] {
+                        return Err(wrong("output component 0", p, diff(ct.poly(0), &c0)));
+                    }
+                    if ct.poly(1)[..] != inp.poly(1)[..] {
+                        return Err(wrong("output component 1", p, diff(ct.poly(1), inp.poly(1))));
+                    }
+                }
+            }
+            Proto::PubKeySwitch => {
+                // two polynomials per message: one is added to c0, the other one becomes c1 (either order on the wire)
+                let inp = input.as_ref().unwrap();
+                let (sa, sb) = (sum_of(0, 0)?, sum_of(0, 1)?);
+                let (c0a, c0b) = (poly_add(inp.poly(0), &sa, &kq, deg), poly_add(inp.poly(0), &sb, &kq, deg));
+                for (p, o) in run.outs.iter().enumerate() {
+                    let Out::Ct(ct) = o else { unreachable!() };
+                    st.judged += 2;
+                    let ok = (ct.poly(0)[..] == c0a[..] && ct.poly(1)[..] == sb[..]) || (ct.poly(0)[..] == c0b[..] && ct.poly(1)[..] == sa[..]);
+                    if !ok {
+                        let (what, d) = if ct.poly(0)[..] != c0a[..] { ("output component 0", diff(ct.poly(0), &c0a)) } else { ("output component 1", diff(ct.poly(1), &sb)) };
+                        return Err(wrong(what, p, d));
+                    }
+                }
+            }
+            Proto::Decrypt => {
+                // c0 + sum of the shares, decoded by the ORDINARY decryptor from a ciphertext whose second component is zero
+                let inp = input.as_ref().unwrap();
+                let mut tr = inp.clone();
+                let c0 = poly_add(inp.poly(0), &sum_of(0, 0)?, &kq, deg);
+                tr.poly_mut(0).copy_from_slice(&c0);
+                tr.poly_mut(1).iter_mut().for_each(|x| *x = 0);
+                if let Ok(exp) = guard(|| dec_any.decrypt_new(&tr)) {
+                    for (p, o) in run.outs.iter().enumerate() {
+                        let Out::Pt(pt) = o else { unreachable!() };
+                        st.judged += 1;
+                        let same = if cfg.is_ckks() { pt.data() == exp.data() } else { guard(|| fx.decode_u(pt)).ok() == guard(|| fx.decode_u(&exp)).ok() };
+                        if !same {
+                            return Err(wrong("decrypted plaintext (decoding of c0 + sum)", p, "differs from the ordinary decryptor's decoding of (c0 + sum, 0)".to_string()));
+                        }
+                    }
+                }
+            }
+            Proto::SharesToCipher => {
+                // party 0 (the aggregating party): encode(share_0) + sum of the exchanged polynomials
+                let Out::Ct(ct) = &run.outs[0] else { unreachable!() };
+                let plain = if cfg.is_ckks() { fx.ck_enc(Some(1.0)).encode(&fx.shares_c[0]) } else { fx.bshare.as_ref().unwrap().encode(&fx.shares_u[0]) };
+                let mut z = ct.clone();
+                z.poly_mut(0).iter_mut().for_each(|x| *x = 0);
+                z.poly_mut(1).iter_mut().for_each(|x| *x = 0);
+                if guard(|| Evaluator::new(fx.ctx.clone()).add_plain_inplace(&mut z, &plain)).is_ok() {
+                    let c0 = poly_add(z.poly(0), &sum_of(0, 0)?, &kq, deg);
+                    st.judged += 1;
+                    if ct.poly(0)[..] != c0[..] {
+                        return Err(wrong("aggregating party's output component 0", 0, diff(ct.poly(0), &c0)));
+                    }
+                }
+            }
+            Proto::CipherToShares => {} // party 0's own term never goes over the wire: judged semantically below
+        }
+        // plaintext preserved although no share is small: the input is an exact symmetric encryption under the sum
+        let semantic_applies = match proto {
+            Proto::Decrypt | Proto::KeySwitch | Proto::CipherToShares | Proto::SharesToCipher | Proto::RevealSk => true,
+            Proto::PubKeySwitch => !case.craft_pk,
+            Proto::PublicKey | Proto::RelinKeys => false, // encrypting under such a key multiplies the encryption error by a large secret
+        };
+        if semantic_applies {
+            let sem = semantic(cfg, fx, &run.outs);
+            st.judged += sem.steps;
+            if let Some(f) = sem.fails.into_iter().next() {
+                return Err(Fail { key: f.key, expected: format!("{} ({ord})", f.expected), observed: f.observed });
+            }
+        }
+    }
+    Ok(st)
+}
+
+fn xcase_cfg(case: &XCase) -> Cfg {
+    let msg = msgs_for(case.spec.scheme, case.spec.t.max(17), case.spec.n).remove(2);
+    let (tern, err) = if case.craft_pk { (Noise::AllMax, Noise::AllMax) } else { (Noise::Real, Noise::Real) };
+    Cfg { proto: case.proto, spec: case.spec.clone(), parties: case.parties, msg, level: 0, shares: ShareMode::Sampler, err, tern, chain: vec![] }
+}
+
+fn xshape(case: &XCase) -> String {
+    let tgt = match (case.craft_pk, case.target) {
+        (true, _) => "crafted-pk".to_string(),
+        (false, None) => "key-shares".to_string(),
+        (false, Some((r, i))) => format!("message-r{r}p{i}"),
+    };
+    format!("extreme:{}:{:?}:{tgt}", case.proto.name(), case.spec.scheme)
+}
+
+fn check_extreme(case: &XCase, seed: u64) -> CaseOut {
+    let cfg = xcase_cfg(case);
+    if cfg.expected_refusal() {
+        return CaseOut::skip("shares_to_cipher refuses BGV");
+    }
+    let mut fx = match guard(|| Fixture::build(&cfg, seed)) {
+        Ok(Ok(f)) => f,
+        Ok(Err(e)) => return CaseOut::skip(&format!("fixture: {e}")),
+        Err(e) => return CaseOut::fail(format!("{}:fixture:panic:{}", xshape(case), panic_class(&e)), "keys and input ciphertext of the configuration can be produced", e),
+    };
+    match guard(|| extreme_inner(case, &cfg, &mut fx)) {
+        Ok(Ok(st)) => CaseOut::pass(st.full_hit, h64(&(case.proto, case.spec.scheme, case.target, case.craft_pk, case.parties, st.wrapped, st.full_hit, st.some_hit)), st.judged),
+        Ok(Err(f)) => {
+            // key: section : protocol : scheme : what was made extreme : what went wrong (the cfg shape prefix is replaced)
+            let what = f.key.strip_prefix(&format!("{}:", cfg.shape())).unwrap_or(&f.key).to_string();
+            CaseOut::fail(format!("extreme:{}:{:?}:{what}", case.proto.name(), case.spec.scheme), f.expected, format!("{} [{}, n = {}, pattern {:?}, moduli {:?}]", f.observed, xshape(case), case.parties, case.pattern, case.spec.q))
+        }
+        Err(p) => CaseOut::fail(format!("{}:unexpected-panic:{}", xshape(case), panic_class(&p)), "no panic outside the guarded subject calls", p),
+    }
+}
+
+/// every aggregating protocol x scheme x party count x pattern x (key shares | every polynomial of every round message)
+fn extreme_cases(ns: &[usize], specs: &dyn Fn(Scheme) -> Vec<ParamSpec>) -> Vec<XCase> {
+    let mut v = vec![];
+    for &n in ns {
+        for scheme in Scheme::all() {
+            for spec in specs(scheme) {
+                let d = spec.q.len() - 1;
+                for proto in Proto::all() {
+                    if scheme == Scheme::BGV && proto == Proto::SharesToCipher {
+                        continue;
+                    }
+                    let mut targets: Vec<(Option<(usize, usize)>, bool)> = vec![(None, false)];
+                    match proto {
+                        Proto::RevealSk => {} // the message IS the key share
+                        Proto::RelinKeys => {
+                            for r in 0..2 {
+                                for i in 0..2 * d {
+                                    targets.push((Some((r, i)), false));
+                                }
+                            }
+                        }
+                        Proto::PubKeySwitch => {
+                            targets.push((Some((0, 0)), false));
+                            targets.push((Some((0, 1)), true));
+                        }
+                        _ => targets.push((Some((0, 0)), false)),
+                    }
+                    for (target, craft_pk) in targets {
+                        for pattern in XPat::all() {
+                            if craft_pk && !pattern.party_independent() {
+                                continue; // one common pk' for all parties: only party-independent patterns
+                            }
+                            v.push(XCase { spec: spec.clone(), parties: n, proto, pattern, target, craft_pk });
+                        }
+                    }
+                }
+            }
+        }
+    }
+    v
+}
+
+fn value_history_sections(cfg: &RunCfg) -> Vec<Box<dyn AnySection>> {
+    let seed = cfg.seed;
+    let th = cfg.thorough();
+    let mut v: Vec<Box<dyn AnySection>> = vec![];
+    let alphabet = "{collective decryption of the current ciphertext; key_switch of the current ciphertext to fresh shares, every party ADOPTS its new share with update_secret_key, the output becomes the current ciphertext and the new sum the current collective key; public_key_switch to an outside key; cipher_to_shares followed by shares_to_cipher of exactly those shares, party 0's output becomes the current ciphertext (BGV: cipher_to_shares only); collective public key, under which the next plaintext (slots rotated by one) is encrypted and becomes the current ciphertext; relinearisation keys; reveal_secret_key}";
+    let oracles = "after EVERY protocol run: the oracles of the lattice sections under the key that is CURRENT at that point (keys byte-identical at all parties and matching the sum of the current shares through ordinary Encryptor/Decryptor/Evaluator objects, decryption = plaintext at every party, switched ciphertexts decrypt under the new sum / the outside key at every party, shares add up to the plaintext, revealed key = sum of the current shares) and no party's share changed by a protocol run";
+    {
+        let cases = history_cases(2, 3, true, false, &|_| true);
+        v.push(E1::new(
+            "histories_n2",
+            &format!("n=2, N=8, primes [30,35,40] bits, t=17, dense plaintext, BFV + BGV + CKKS: EVERY sequence of 3 steps (repetition allowed, 7^3 = 343 per scheme) over {alphabet} on the SAME participants with data flow; earlier steps in identity order, the last step in ALL its delivery orders (every combination of identity / reverse over its rounds); {oracles}"),
+            cases.into_iter(),
+            move |c| check_history(c, seed),
+        ));
+    }
+    {
+        let cases = history_cases(3, 3, false, th, &|_| true);
+        v.push(E1::new(
+            "histories_n3",
+            &format!(
+                "n=3, N=8, primes [30,35,40] bits, t=17, dense plaintext, BFV + BGV + CKKS: EVERY sequence of 3 steps (repetition allowed, 7^3 = 343 per scheme) over {alphabet} on the SAME participants with data flow; delivery orders: {}; {oracles}",
+                if th { "whole history identity, whole history reversed, only the earlier steps reversed, only the last step reversed" } else { "whole history identity, whole history reversed" }
+            ),
+            cases.into_iter(),
+            move |c| check_history(c, seed),
+        ));
+    }
+    {
+        let ns: Vec<usize> = if th { vec![2, 3, 16, 17, 18, 33, 65] } else { vec![2, 3, 16, 17, 18] };
+        let specs = move |scheme: Scheme| -> Vec<ParamSpec> {
+            // the three LARGEST primes the library accepts (60 bits, = 1 mod 8): 16 residues cannot reach 2^64, 17 maximal ones do
+            let mut s = vec![ParamSpec::new(scheme, 4, ntt_primes(4, 60, 3), 17)];
+            if th {
+                // the three SMALLEST 60-bit primes (just above 2^59): the 2^64 boundary lies between 31 and 33 parties
+                s.push(ParamSpec::new(scheme, 4, crate::refmodel::bigu::primes_1_mod_low(8, 60, 3), 17));
+            }
+            s
+        };
+        let cases = extreme_cases(&ns, &specs);
+        v.push(
+            E1::new(
+                "extreme_shares",
+                &format!(
+                    "n in {ns:?} parties, N=4, 3 primes of 60 bits (the largest the library accepts: {:?}{}), t=17, BFV + BGV + CKKS, every aggregating protocol (public key, relin keys both rounds, secret-key revelation, decrypt, key switch, public-key switch, cipher->shares, shares->cipher; shares->cipher/BGV refused by the library) run once in identity and once in reverse delivery order with residue vectors at the value boundaries of a modular sum: patterns {{q-1-id, q-1, alternating 0 / q-1, (q+1)/2, (q-1)/2, (q+1)/2 at even and (q-1)/2 at odd party ids (pairs add up to exactly q), q-1-id in the first RNS component only}} x what carries the pattern: (a) the parties' KEY SHARES (set with update_secret_key), (b) for every polynomial of every round message: that polynomial of EVERY party's message — the shares are solved from two probe runs (the polynomial is an affine function of the party's share; round 2 of the relinearisation protocol with the sum of the shares held fixed, the last party absorbing), (c) public_key_switch second polynomial: all-maximal ternary/error scripts and a solved second component of the outside public key. Oracles: every aggregate a party outputs (revealed key, public key, both relinearisation-key components, switched ciphertext components, decrypted plaintext = ordinary decryptor's decoding of (c0 + sum, 0), aggregating party's shares->cipher output) equals the sum of the polynomials that went over the wire, every residue summed in u128 and reduced once; all parties byte-identical; pk0 + pk1*(sum of shares) = small; and with the input crafted as an exact symmetric encryption under the sum of the (large) shares: plaintext preserved by decrypt / key switch / public-key switch / cipher->shares / shares->cipher. non-trivial = the targeted polynomial of every controlled party is the pattern at every position",
+                    ntt_primes(4, 60, 3),
+                    if th { format!(" and the smallest: {:?}", crate::refmodel::bigu::primes_1_mod_low(8, 60, 3)) } else { String::new() }
+                ),
+                cases.into_iter(),
+                move |c| check_extreme(c, seed),
+            )
+            .batch(4),
+        );
+    }
+    v
+}
+
 pub fn sections(cfg: &RunCfg) -> Vec<Box<dyn AnySection>> {
     let seed = cfg.seed;
     let th = cfg.thorough();
@@ -2489,6 +3576,7 @@ pub fn sections(cfg: &RunCfg) -> Vec<Box<dyn AnySection>> {
         v.push(cover(5, 0.5));
         v.push(cover(6, 0.5));
     }
+    v.extend(value_history_sections(cfg));
     v.extend(size_sections(cfg));
     v
 }
